@@ -265,5 +265,26 @@ func TestVerifLabels(t *testing.T) {
 			}
 		}
 	}
+	// converters of which only SOME inputs can be satisfied: the second input's
+	// type is never supplied or produced; such a converter must not be executed
+	// (with an invented argument), whatever the parameter asks for
+	for _, p := range U {
+		for _, out := range U {
+			for _, missing := range []label{{"", "B", ""}, {"m", "B", ""}, {"", "B", "a"}} {
+				if thorough {
+					missing.typ = "A"
+				}
+				seed := label{"", "A", ""}
+				if thorough {
+					seed = label{"", "B", ""}
+				}
+				sc := scenario{param: p, inputs: []label{{"seed", seed.typ, ""}}, convs: [][2][]label{{{seed, missing}, {out}}}}
+				n++
+				if bad := runScenario(sc); len(bad) > 0 {
+					report(sc, bad)
+				}
+			}
+		}
+	}
 	t.Logf("label scenarios run: %d, failing: %d", n, failures)
 }
